@@ -128,6 +128,33 @@ class Harness:
             hy = hy + [f]
         return hy, obs
 
+    def same(self, name, hyps, l, r, ctx, replay=None, key=None, timeout=None):
+        """two terms that the real code must make equal (differential obligations between configurations of one operator).
+        Identical terms are discharged syntactically; terms that already differ numerically at the run's own concrete point
+        are handed to the replay at that point (a confirmed difference is a violation, no solver needed to find it);
+        everything else is an ordinary equality obligation."""
+        from .terms import evalf
+        if z3.is_true(z3.simplify(l == r)):
+            return self.prove(name, [], z3.BoolVal(True), key=key)
+        try:
+            cache = {}
+            dv = abs(evalf(l, ctx.env, ctx.tfvar, cache) - evalf(r, ctx.env, ctx.tfvar, cache))
+        except Exception:
+            dv = 0.0
+        env = ctx.env
+        if replay is not None and dv > 1e-9:
+            ob = Ob(name, [], z3.BoolVal(False), 'prove', 1, replay, None, key, None)
+            ob.res = {'result': 'sat', 'strategy': 'concrete point of the run', 'time': 0.0, 'model': dict(env)}
+            ob.status = 'sat'
+            self._handle_sat(ob)
+            self.obs.append(ob)
+            if ob.status == 'violation':
+                return ob
+            self.obs.pop()
+        d = l - r
+        return self.prove(name, hyps, l == r, replay=replay, key=key, timeout=timeout,
+                          neg_margin=z3.Or(d > z3.RealVal('1/1000'), d < -z3.RealVal('1/1000')))
+
     def prove_eqs(self, name, hyps, lhs, rhs, **kw):
         """componentwise equality obligations; neg_margin asks for a witness with visible margin"""
         obs = []
@@ -268,13 +295,14 @@ class Harness:
                 self._finish_cert(ob)
             elif ob.status == 'pending' and ob.kind == 'certb':
                 self._finish_certb(ob)
+        sats = []
         for ob in self.obs:
             if ob.status != 'pending':
                 continue
             if ob.kind in ('cert', 'certb'):
                 self._finish_cert2(ob)
                 if ob.status == 'sat':
-                    self._handle_sat(ob)
+                    sats.append(ob)
                 continue
             try:
                 ob.res = ob.fut.result(timeout=7200)
@@ -297,7 +325,15 @@ class Harness:
                 continue
             ob.status = r
             if r == 'sat':
-                self._handle_sat(ob)
+                sats.append(ob)
+        # candidate counterexamples: the margin queries of all of them run in the pool, then each is replayed on the real code
+        for ob in sats:
+            ob.fut2 = None
+            if ob.neg_margin is not None and ob.kind != 'cert':
+                ms = ob.neg_margin if isinstance(ob.neg_margin, (list, tuple)) else [ob.neg_margin]
+                ob.fut2 = [self.pool.submit(_solve.solve, _smt2(ob.hyps, nm_), min(ob.timeout, 5), True, ('default',)) for nm_ in ms]
+        for ob in sats:
+            self._handle_sat(ob)
 
     def _apply_vacuous(self):
         for ob in self.obs:
@@ -321,8 +357,12 @@ class Harness:
         model = ob.res.get('model') or {}
         if ob.neg_margin is not None and ob.kind != 'cert':
             # prefer a witness with a visible margin (graded: the first satisfiable of a list of decreasing margins)
-            for nm_ in (ob.neg_margin if isinstance(ob.neg_margin, (list, tuple)) else [ob.neg_margin]):
-                r2 = _solve.solve(_smt2(ob.hyps, nm_), min(ob.timeout, 5), True, ('default',))
+            for f2 in (getattr(ob, 'fut2', None) or []):
+                try:
+                    r2 = f2.result(timeout=600)
+                except Exception:
+                    continue
+                self.solver_time += r2.get('time', 0)
                 if r2['result'] == 'sat' and r2.get('model'):
                     model = r2['model']
                     break
